@@ -71,7 +71,7 @@ def showOpens (l : List Bytes) : String :=
 def session (args : List String) (lines : List (List String)) : List String :=
   let arg (i : Nat) : String := (args.drop i).head?.getD "-"
   let o : Opts := { root := root, pfx := hexOf (arg 0), index := hexOf (arg 1), setETag := arg 2 == "1" }
-  let spy := arg 3 == "1"
+  let spy := arg 3 == "1" || arg 3 == "3"   -- 3: FileSystem AND Directory given (the file system is served as it is)
   let t := tableOf lines
   let one : List String → String
     | ["FS", _, "d"] => "fs"
